@@ -1,12 +1,38 @@
 import Driver.Tok
-/- line-protocol handlers of this area; see docs/AGENT_GUIDE.md -/
+import BpModel.Grpc
+/- line-protocol handlers of the Grpc area (C11); strings travel as hex of their ASCII bytes (`-` = empty)
+
+   GROUTE <hex package|-> <hex service> <hex method>   -> hex of the route
+   GCARD <cs 0|1> <ss 0|1>                              -> <helper> <CARDINALITY> <recv> <send>
+   GKW <stub timeout|-> <stub deadline|-> <stub metadata|-> <call timeout|-> <call deadline|-> <call metadata|->
+                                                        -> <timeout|-> <deadline|-> <metadata|->      -/
 namespace Drv
+open Bp.Grpc
 
 structure GrpcSt where
   dummy : Unit := ()
 
-def handleGrpc (st : GrpcSt) (_toks : List String) : Option (GrpcSt × String) :=
-  let _ := st
-  none
+def gHex (s : String) : Option (List Char) := (parseHex s).map fun bs => bs.map Char.ofNat
+def gToHex (s : List Char) : String := toHex (s.map Char.toNat)
+
+def optTok (s : String) : Option String := if s == "-" then none else some s
+def showTok : Option String → String
+  | none => "-"
+  | some s => s
+
+def handleGrpc (st : GrpcSt) : List String → Option (GrpcSt × String)
+  | ["GROUTE", p, s, m] => do
+    let p ← gHex p
+    let s ← gHex s
+    let m ← gHex m
+    some (st, gToHex (route p s m))
+  | ["GCARD", cs, ss] =>
+    let cs := cs == "1"
+    let ss := ss == "1"
+    some (st, s!"{helperOf cs ss} {mappingCardOf cs ss} {recvOf cs} {sendOf ss}")
+  | ["GKW", a, b, c, d, e, f] =>
+    let r := resolveKw (α := String) ⟨optTok a, optTok b, optTok c⟩ ⟨optTok d, optTok e, optTok f⟩
+    some (st, s!"{showTok r.timeout} {showTok r.deadline} {showTok r.metadata}")
+  | _ => none
 
 end Drv
